@@ -42,6 +42,9 @@ def scenarios(tier):
     # hooks around signals and stops that raise (their failures are ignored by default): what they leave behind must not
     # change what the next generation of workers inherits
     out.append(Scenario('sock', sset='inet+unix', tier=tier, ref='cmd', hooks='raise'))
+    # the daemon is built from a configuration file; one event is a reloadconfig of a file that adds a socket section
+    # clashing with a managed one (same unix path / same port): refused - and the managed sockets are still there
+    out.append(Scenario('sock', sset='inet+unix', tier=tier, ref='cmd', cfgfile=True))
     return out
 
 
@@ -59,8 +62,31 @@ def bounds(tier):
             'burst': '1 event (quick), request + death in generations 1-2 (thorough)'}
 
 
+class ClashReload(object):
+    """Rewrite the configuration file with one more socket section that collides with the managed socket `name`, then
+    send reloadconfig (which cannot bind it)."""
+
+    def __init__(self, name):
+        self.name = name
+        self.label = 'reloadconfig(+socket clashing with %s)' % name
+        self.request = None
+
+    def apply(self, world):
+        from props.common import write_ini
+        socks = list(world.cfg_sockets)
+        opts = dict([x for x in socks if x[0] == self.name][0][1])
+        if 'port' in opts:
+            opts['port'] = world.arbiter.sockets[self.name].getsockname()[1]
+        write_ini(world.config_file, world.cfg_watchers, sockets=socks + [('dup', opts)])
+        self.request = world.request('reloadconfig')
+        world.last_request = self.request
+        return self.request
+
+
 def alphabet(world):
     evs = []
+    if getattr(world, 'cfg_sockets', None):
+        evs += [ClashReload(n) for n, _ in world.cfg_sockets]
     for n in ('u', 'p'):
         if world.watcher(n) is None:
             continue
@@ -115,6 +141,26 @@ def run(scn, ch):
         else:
             cmd, args = 'worker', ' '.join(refs)          # the references live in `args`, not in `cmd`
         extra = {'stdin_socket': SETS[scn.sset][0][0]} if scn.p.get('stdin') else {}
+        if scn.p.get('cfgfile'):
+            from props.common import write_ini
+            ini = scratch.path('c.ini')
+            sock_sections = []
+            for name, kind, reuse in SETS[scn.sset]:
+                if kind == 'inet':
+                    sock_sections.append((name, {'host': '127.0.0.1', 'port': 0}))
+                else:
+                    sock_sections.append((name, {'path': scratch.path(name + '.sock')}))
+            ws = [('u', {'cmd': cmd, 'numprocesses': 2, 'use_sockets': 'True', 'graceful_timeout': 0.1}),
+                  ('p', {'cmd': 'plain', 'numprocesses': 1, 'graceful_timeout': 0.1})]
+            write_ini(ini, ws, sockets=sock_sections)
+            for sk in socks:
+                sk.close()
+            world = World(ch, [WSpec('u'), WSpec('p')], config_file=ini)
+            world.cfg_sockets, world.cfg_watchers = sock_sections, ws
+            world.kernel.fd_snapshot = fd_table
+            world.kernel.probe_preexec = True
+            world.judged_spawns = 0
+            return world
         if scn.p.get('hooks') == 'raise':
             def boom(watcher, arbiter, hook_name, **kw):
                 raise RuntimeError('hook backend is down')
